@@ -292,7 +292,9 @@ def check_snapshot(run: Run, ctx, m, cls) -> None:
     if init is None:
         raise AnalysisError("anchor vanished: _rewrite_captured_vars.__init__")
     _check_merge_order(run, ctx, init)
-    pa = m.find_func("parse_as_ast", in_module="func_adl.util_ast")
+    from ..lib import view as _view
+
+    pa = _view(m, m.find_func("parse_as_ast", in_module="func_adl.util_ast"))
     c3 = TermCtx(m, max_depth=1, opaque={"_parse_source_for_lambda", "global_getclosurevars", "lambda_unwrap"})
     fp = c3.analysis(pa)
     src = ("param", pa.pos_params[0])
